@@ -1,8 +1,8 @@
-(* C01: the fifteen offset-computing detectors, as translated from the current source, against the models that the
+(* C01: the seventeen function detectors outside GoLite that are translated (offset-computing ones, Text, Svg), as translated from the current source, against the models that the
    tree walk of Model/Detect.v evaluates for their nodes (hand_models). *)
 From Coq Require Import Lia.
 From Verif Require Import Base.Bytes Model.Types Model.GoLite Model.Zip Model.Ole Model.Mkv Model.Tar Model.GoRes Model.Detect Model.SrcDetect
-  Gen.SrcFuncs Proofs.SrcBaseP Proofs.SrcOleP Proofs.SrcZipP Proofs.SrcMkvP Proofs.SrcTarP.
+  Gen.SrcFuncs Proofs.SrcBaseP Proofs.SrcOleP Proofs.SrcZipP Proofs.SrcMkvP Proofs.SrcTarP Proofs.SrcTextP.
 Local Open Scope string_scope.
 
 Theorem src_dets_equal_models : forall name f raw (l : N), bytes_ok raw = true -> In (name, f) src_dets ->
@@ -25,6 +25,9 @@ Proof.
   - apply src_Pptx_ok.
   - apply src_Jar_ok.
   - apply src_APK_ok.
+  - apply src_Text_ok.
+  - reflexivity.
+  - apply src_Php_ok.
 Qed.
 
 (* every function the translator was asked for is translated, and every function detector that is neither a GoLite
